@@ -117,7 +117,12 @@ func runC15(s *core.Sim, tier string) RunInfo {
 			return nil
 		}
 		bound := int(D)*(bits.Len64(D)+2) + 2
-		budget := time.Duration(bound+10)*time.Millisecond*2 + time.Minute
+		// (virtual time is free: the request bound is what limits the search, the time budget
+		// only has to be generous; every promoted intermediate is also appended to the Store)
+		budget := time.Duration(bound+10)*time.Millisecond*20 + time.Minute
+		if need := s.Steps + 12*bound; need > s.MaxSteps {
+			s.MaxSteps = need
+		}
 		if w.Disk.Park {
 			// every promoted intermediate is appended to a Store whose disk stalls now and then:
 			// virtual time is free, the request bound is what limits the search
